@@ -256,7 +256,7 @@ def string_classes(case):
 
 # ---------------------------------------------------------------- repetitive inputs (cost hidden inside C primitives)
 
-FRAGMENTS = ['\\x', '\\\\', '\\"', "\\'", '""', "''", 'a.', '(', ')', '1.', '.1', '$A', 'A$', '#', '"\\', '.5', '<>', 'A1:', ' ', '\t', '%', '^2', '_a', '.a', 'a_', '1e', '-', '{', ',', ';', '!', 'é', 'A1', 'x(', 'N/A', '#N/A', '&"']
+FRAGMENTS = ['\\x', '\\\\', '\\"', "\\'", '""', "''", 'a.', '(', ')', '1.', '.1', '$A', 'A$', '#', '"\\', '.5', '<>', 'A1:', ' ', '\t', '%', '^2', '_a', '.a', 'a_', '1e', '-', '{', ',', ';', '!', 'é', 'A1', 'x(', 'N/A', '#N/A', '&"', '=', '+', '<', '= ']
 patho_case = st.fixed_dictionaries({'prefix': st.sampled_from(['', '"', "'", 'SUM(', 'CONCATENATE("', "LEN('", '=', '{', '1+']), 'frag': st.sampled_from(FRAGMENTS), 'frag2': st.sampled_from([''] + FRAGMENTS),
                                     'n': st.one_of(st.integers(1, 25), st.integers(1, 25), st.integers(1, 25), st.integers(1, 25), st.sampled_from([400, 1200, 2500])), 'suffix': st.sampled_from(['', '"', "'", ')', '")', '}', '+1'])})
 CPU_LIMIT_S = 2.0
